@@ -125,7 +125,8 @@ def history_part(ck):
     """The compiled formulas of a spec must not depend on what was mapped earlier in the same process (lambdify cache,
     symbol caches).  A twin of a micro-spec whose DRAM energies differ from the original's in the 6th significant digit
     (3.5 -> 3.5 + 2^-16; both dyadic, so every product with an integer count is exact) is mapped right after the original
-    in one process; every recorded formula of the twin is compared with the real model on the twin, exactly."""
+    in one process; every recorded formula of the twin is compared with the real model on the twin (up to float32
+    rounding of the compiled formulas: 2^-21 relative)."""
     import copy
     thorough = ck.tier == "thorough"
     bases = worlds_for(ck, 2 if not thorough else 6, 700)
@@ -161,9 +162,13 @@ def history_part(ck):
         n += 1
         lat, en, usage = formula_values(t, k)
         probs = []
-        if lat is not None and r["latency"] != lat:
+        # the compiled formulas run on float32 columns: the twin's energies (3.5 + 2^-16) need more than 24 bits, so the
+        # formula value is the real model's value rounded a few times (observed <= 2^-23.8 relative); a formula compiled
+        # for the prelude spec is off by about 2^-18 times the share of the perturbed energies
+        far = lambda a, b: abs(a - b) > Fraction(1, 2 ** 21) * max(abs(a), abs(b))
+        if lat is not None and far(r["latency"], lat):
             probs.append(("latency-vs-model", lat, r["latency"]))
-        if en is not None and r["energy"] != en:
+        if en is not None and far(r["energy"], en):
             probs.append(("energy-vs-model", en, r["energy"]))
         if probs:
             ck.violation("C07/history/formula-differs/%s" % probs[0][0],
@@ -203,7 +208,8 @@ def replay(path):
             r = ln.evaluate_records(ck, [w], [{"wid": w["id"], "nodes": rec["nodes"]}])[0]
             lat, en, usage = formula_values(t, k)
             print("formula after prelude: latency %s energy %s; real model: %s %s" % (lat, en, r.get("latency"), r.get("energy")))
-            if "energy" in r and (r["latency"] != lat or r["energy"] != en):
+            far = lambda a, b: abs(a - b) > Fraction(1, 2 ** 21) * max(abs(a), abs(b))
+            if "energy" in r and (far(r["latency"], lat) or far(r["energy"], en)):
                 bad += 1
         if bad:
             print("VIOLATION property=C07 replay=%s" % path)
